@@ -29,6 +29,58 @@ TRUSTED readings (what the equivalence theorems take for granted about Python an
       (line without EXDATE parts, list of EXDATE strings);  `'EXDATE:' + ','.join(l)` is the part
       `mk_exdate_part l`;  f'{a};{b}' appends the part b to the line a (rr_snoc);  `x not in l` on a list of
       strings is existsb with string equality (parameter exd_eqb), negated;  l.append(x) is l ++ [x].
+  R7  (_normalize_datetime, _to_timestamp)  A value that can be None, a date or a datetime is ONE abstract
+      type DV (the source re-assigns `dt` from a date to a datetime).  isinstance(x, datetime), x.tzinfo,
+      datetime.combine(d, time.min, tzinfo=z), x.replace(tzinfo=z), x.astimezone(z), x.replace(microsecond=0),
+      x.timestamp() are parameters.  Instantiation (GenEq_gcsa2.v): dv = None | date (day number) | datetime in
+      one of the model's presentations (fixed offset / zoneinfo zone / naive, with wall clock and fold);
+      astimezone keeps the instant, replace(tzinfo=) keeps wall clock and fold, datetimes are whole seconds
+      (replace(microsecond=0) is the identity), int(x.timestamp()) is the instant.
+  R8  (_is_all_day_event)  A gcsa Event object always has the attributes start, end, timezone
+      (`hasattr(e, 'start' / 'end' / 'timezone')` are read as True);  `_extract_datetime(v)` is a parameter
+      (instantiated with the identity: for None, a date or a datetime the function returns its argument by
+      its first and its last branch);  isinstance(v, date) holds of dates AND datetimes;  `hasattr(v, 'date')` /
+      `getattr(v, 'date', None)` / `callable(..)`: a date has no attribute `date`, a datetime has the bound
+      method date() (callable, not None);  e.timezone is None or a non-empty zone name (a falsy value is read
+      as None), ZoneInfo(name) is total (an unknown name raises: not modelled) and returns the same object for
+      the same name, so `end_local - start_local` of two datetimes carrying the same tzinfo is the difference
+      of their WALL CLOCKS (PEP 495), of their instants otherwise;  a tzinfo object is truthy.
+  R9  (Calendar._fetch_forward)  `self._calendar_timezone` is read as a pure attribute holding the value the
+      lazily fetching property returns once it HAS been fetched (the theorems carry a_tz a = Some ctz);
+      `self.calendar.get_events(time_min=, time_max=, single_events=True, order_by='startTime',
+      calendar_id=self.calendar_id)` is a parameter returning the list the iterable yields (accepted only with
+      exactly these keyword arguments);  `_extract_reminders` is a parameter;  `Event(...)` is a parameter
+      taking the ten keyword arguments (id and summary as Optionals: the source passes e.id / e.summary after
+      testing them);  `_UTC_TIMEZONE = 'UTC'` must be in the module.
+  R10 (_prepare_event_for_add, _build_gcsa_event, _build_result_event, _convert_timestamps_to_datetime)
+      `_validate_event(interval, require_id=False)` is a parameter returning (Event | None, errors | None); a
+      non-None error list is truthy;  `assert event is not None` failing is the distinguished result
+      pw_assertion_error;  `replace(event, id='', calendar_id=, calendar_summary=)`, `_PreparedEvent(..)`,
+      `GcsaEvent(..)`, `Event(..)`, `WriteResult(..)`, `_convert_reminders_to_gcsa` are parameters (constructors
+      of abstract types; a _PreparedEvent and a WriteResult share the type PW because one variable holds
+      either);  local `start` / `end` are ints after the `event.start is None or event.end is None` test.
+      Instantiation (GenEq_gcsa3.v): the event handed to add() is the model's wev.
+  R11 (Calendar._add_recurring)  the two `metadata[...] = self....` stores are skipped (skip_stmts: they only
+      affect `metadata`, read through the parameters md_*);  `{**pattern.metadata, **metadata}`, the lookups
+      'start' in m / m['start'] / m.get('summary', 'Recurring Event') / m.get('description') / m.get('reminders'),
+      f'RRULE:{pattern.to_rrule_string()}', sorted(pattern.exdates) (a frozenset: ascending distinct members),
+      str(pattern.zone) == str(self._calendar_timezone or timezone.utc) (zone names equal), str(zone),
+      isinstance(reminders, list), all(isinstance(r, Reminder) ..), datetime.now(zone), x.replace(hour=0, ..),
+      x + timedelta, `self.calendar.add_event(ev, calendar_id=self.calendar_id)` (pure: returns the created
+      event; an exception it raises is the decorator's business) are parameters.  `created_event.id` falsy is
+      read as "no id".  Instantiation (GenEq_gcsa4.v): the pattern is the model's wpat (anchored), metadata
+      carries the summary only; the RRULE text is (weekly, interval, byday, token line).
+  R12 (_remove_recurring_instance, _handle_write_errors)  A backend call inside `try: .. except Exception` is a
+      parameter returning (result + exception); BaseExceptions that are not Exceptions are not modelled.
+      `master_event.recurrence` is read through mev_has_recurrence / mev_line (recurrence[0]) /
+      mev_recurrence_with ([new, *recurrence[1:]]) and the store `master_event.recurrence = ..` through
+      mev_set_recurrence (master_event is a local object fresh from get_event).  The error-message f-strings
+      are parameters wrs_error_*.  _handle_write_errors: the wrapper must be `def wrapper(*args, **kwargs)` under
+      @wraps(func) and be what the decorator returns; `func(*args, **kwargs)` is the parameter func_call.
+  R13 (Calendar.fetch, _add_interval, _add_many, _add_many_batch)  the methods they call are parameters (the
+      theorems instantiate them with the generated ones);  `created_event.id`: has-an-id test plus the id;
+      only the LAST statement of _add_many_batch is translated (tail): `results` is a parameter, and
+      `d.get(str(i), <Missing>)` is the lookup results_get_or_missing d i (str is injective on ints).
 """
 from . import pysrc_gcsa  # noqa: F401  (installs the gx extension on pysrc.Tr)
 
@@ -424,4 +476,48 @@ SPECS_GCSA = [
                                              pre=["parse_exdates_from_rrule", "exd_eqb", "mk_exdate_part", "rr_snoc"],
                                              args=["RR", "EXD"], ret="RR")},
          attrs={("AEV", "start"): ("aev_start", "OZ")}),
+    # ---- Calendar.fetch, _add_interval, _add_many, the result ordering of _add_many_batch (R13)
+    dict(name="g_gcsa_fetch", file=GCSA, cls="Calendar", func="fetch", kind="expr", ret="L:AEV", gx=True,
+         tyvars=["AEV"], types={"AEV": "AEV"},
+         params=[("fetch_forward", "option Z -> option Z -> list AEV"), ("fetch_reverse", "option Z -> option Z -> list AEV"),
+                 ("start", "OZ"), ("end", "OZ"), ("reverse", "B")],
+         calls={"self._fetch_forward": ("fetch_forward", ["OZ", "OZ"], "L:AEV"),
+                "self._fetch_reverse": ("fetch_reverse", ["OZ", "OZ"], "L:AEV")}),
+    dict(name="g_gcsa_add_interval", file=GCSA, cls="Calendar", func="_add_interval", kind="expr", ret="WRS", gx=True,
+         decorators_ok=["_handle_write_errors"],
+         tyvars=["TZ", "IVLX", "MD", "PW", "GEV", "CREATED", "ID", "AEV", "CID", "CSUM", "WRS"],
+         types={k: k for k in ["TZ", "IVLX", "MD", "PW", "GEV", "CREATED", "ID", "AEV", "CID", "CSUM", "WRS"]},
+         params=[("prepare_event_for_add", "IVLX -> CID -> CSUM -> option TZ -> PW"), ("pw_is_write_result", "PW -> bool"),
+                 ("wrs_of_pw", "PW -> WRS"), ("build_gcsa_event", "PW -> GEV"), ("add_event", "GEV -> CREATED"),
+                 ("created_has_id", "CREATED -> bool"), ("created_id", "CREATED -> ID"), ("wrs_no_id", "WRS"),
+                 ("build_result_event", "PW -> ID -> AEV"), ("wrs_success", "AEV -> WRS"),
+                 ("self_calendar_id", "CID"), ("self_calendar_summary", "CSUM"), ("self_calendar_timezone", "O:TZ"),
+                 ("interval", "IVLX"), ("metadata", "MD")],
+         selfattrs={"calendar_id": ("self_calendar_id", "CID"), "calendar_summary": ("self_calendar_summary", "CSUM"),
+                    "_calendar_timezone": ("self_calendar_timezone", "O:TZ")},
+         patterns=[("isinstance(_1, WriteResult)", "(pw_is_write_result {0})", ["PW"], "B"),
+                   ("[_1]", "(wrs_of_pw {0})", ["PW"], "WRS"),
+                   ("not _1.id", "(negb (created_has_id {0}))", ["CREATED"], "B"),
+                   ("_error_result(ValueError('Google Calendar did not return an event ID'))", "wrs_no_id", [], "WRS"),
+                   ("[WriteResult(success=True, event=_1, error=None)]", "(wrs_success {0})", ["AEV"], "WRS")],
+         calls={"_prepare_event_for_add": ("prepare_event_for_add", ["IVLX", "CID", "CSUM", "O:TZ"], "PW"),
+                "_build_gcsa_event": ("build_gcsa_event", ["PW"], "GEV"),
+                "self.calendar.add_event": dict(coq="add_event", args=["GEV"], fixed={"calendar_id": "self.calendar_id"},
+                                                ret="CREATED"),
+                "_build_result_event": ("build_result_event", ["PW", "ID"], "AEV")},
+         attrs={("CREATED", "id"): ("created_id", "ID")}),
+    dict(name="g_gcsa_add_many", file=GCSA, cls="Calendar", func="_add_many", kind="expr", ret="L:WR", res=True, gx=True,
+         tyvars=["IVLX", "MD", "WR", "EXC"], types={k: k for k in ["IVLX", "MD", "WR", "EXC"]},
+         params=[("add_many_batch", "list IVLX -> list WR + EXC"), ("wr_error", "EXC -> WR"),
+                 ("intervals", "L:IVLX"), ("metadata", "MD")],
+         try_calls={"self._add_many_batch": dict(coq="add_many_batch", args=["L:IVLX"], ret="L:WR")},
+         patterns=[("WriteResult(success=False, event=None, error=_1)", "(wr_error {0})", ["EXC"], "WR")]),
+    # only the final statement of _add_many_batch (the order in which the results are returned); `results`
+    # is whatever the dictionary holds at that point: a parameter
+    dict(name="g_gcsa_add_many_batch_results", file=GCSA, cls="Calendar", func="_add_many_batch", kind="expr",
+         ret="L:WR", gx=True, tail=dict(stmts=1, free=["results"]),
+         tyvars=["IVLX", "RESD", "WR"], types={k: k for k in ["IVLX", "RESD", "WR"]},
+         params=[("results_get_or_missing", "RESD -> Z -> WR"), ("results", "RESD"), ("events_list", "L:IVLX")],
+         patterns=[("_1.get(str(_2), WriteResult(success=False, event=None, error=ValueError('Missing')))",
+                    "(results_get_or_missing {0} {1})", ["RESD", "Z"], "WR")]),
 ]
